@@ -134,16 +134,32 @@ theorem macro_fold_eq (prof : Profile) (src : List Nat) :
                 subst hnz
                 simp [checkedI128_some hfit, IntTy.cast, IntTy.wrap, IntTy.u8]
 
-/-- the sign fix-up only touches a leading `"- "` / `"+ "` -/
+/-- the sign fix-up only touches white space directly after a leading sign (D15: a blank, a tab, or the line break that
+    `TokenStream::to_string` puts in front of a long literal) -/
 theorem strip_blank_spec (s : List Nat) :
     macroStripBlank s = (match s with
-      | 45 :: 32 :: r => 45 :: r
-      | 43 :: 32 :: r => 43 :: r
+      | 45 :: r => 45 :: r.dropWhile isAsciiWs
+      | 43 :: r => 43 :: r.dropWhile isAsciiWs
       | s => s) := by
   unfold macroStripBlank; rfl
 
+/-- `Dec!(- lit)`, `Dec!(-<line break>lit)` and `Dec!(-lit)` fold to the same constant: the text between sign and number is irrelevant -/
+theorem sign_separator_irrelevant (prof : Profile) (sign : Nat) (hs : sign = 45 ∨ sign = 43) (ws rest : List Nat)
+    (hws : ∀ c ∈ ws, isAsciiWs c = true) (hr : ∀ c, rest.head? = some c → isAsciiWs c = false) :
+    macroFold prof (sign :: (ws ++ rest)) = macroFold prof (sign :: rest) := by
+  have key : (ws ++ rest).dropWhile isAsciiWs = rest.dropWhile isAsciiWs := by
+    induction ws with
+    | nil => rfl
+    | cons c t ih =>
+      have hc : isAsciiWs c = true := hws c (List.mem_cons_self ..)
+      rw [List.cons_append, List.dropWhile_cons, if_pos hc]
+      exact ih (fun d hd => hws d (List.mem_cons_of_mem _ hd))
+  unfold macroFold
+  rcases hs with h | h <;> subst h <;> simp only [macroStripBlank, key]
+
 /-! ### non-vacuity -/
 example : macroFold Profile.dev [45, 32, 49, 46, 53] = .ok (.ok ⟨-15, 1⟩) := by decide       -- "- 1.5"
+example : macroFold Profile.dev [45, 10, 49, 46, 53] = .ok (.ok ⟨-15, 1⟩) := by decide       -- "-\n1.5" (D15)
 example : macroFold Profile.dev [48, 101, 57, 57] = .ok (.ok ⟨0, 0⟩) := by decide           -- "0e99"
 example : macroFold Profile.dev [49, 101, 51, 57] = .ok (.error .overflow) := by decide     -- "1e39": does not compile
 
